@@ -1264,9 +1264,9 @@ class WorkflowConductor(object):
         for e in [e for e in self.errors if e.get("task_id", None) == task_id]:
             self.errors.remove(e)
 
-        # If task has items, then use existing staged task entry and reset failed items.
-        if task_spec.has_items():
-            staged_task = self.workflow_state.get_staged_task(task_id, route)
+        # If task has items and failed, then use existing staged task entry and reset failed items.
+        # A task with items that succeeded has no staged task entry and is rerun like other tasks.
+        if task_spec.has_items() and staged_task:
             for item in staged_task.get("items", []):
                 if reset_items or item["status"] in statuses.ABENDED_STATUSES:
                     item["status"] = statuses.UNSET
